@@ -167,7 +167,11 @@ pub fn soup_program(rng: &mut Rng, n: usize) -> String {
     s
 }
 
-pub const STRESS: [&str; 25] = [
+pub const STRESS: [&str; 28] = [
+    // records with composed names: defined by a defm, by a def with a pasted name, in a loop
+    "class I;\nmulticlass M2 { def _q : I; }\nmulticlass M { def I : I; def \"\" : I; def NAME#\"_x\" : I; def NAME#\"_\"#NAME; defm _in : M2; defm NAME : M2; }\ndefm SLL : M;\ndef u { I a = SLLI; I b = SLL; I c = SLL_x; I d = SLL_in_q; I e = SLLnope; I f = SLL_q; I g = SLL_SLL; }",
+    "class K;\nforeach i = 0-3 in def R#i : K;\ndef ADD#_rr : K;\ndef SUB#\"_rr\" : K;\ndefm LOAD#_acq : NoSuch;\ndef u { dag d = (ADD_rr R0, R3, SUB_rr, R9, Rx, R, ADD, LOAD_acq); K k = R1; int n = R2.x; }\ndef ADD_rr : K;\ndef v { K k = ADD_rr; }",
+    "multiclass M<string tag> { def NAME#\"_\"#tag; def tag; def NAME; defm \"\" : M<tag>; }\ndefm P : M<\"x\">;\ndefm \"\" : M<\"y\">;\ndefm : M<\"z\">;\ndef q { int a = P_x; int b = P; int c = P_.f; int d = tag; int e = NAME; }",
     // extreme integers where widths and positions are computed
     "class X { bits<8> b; let b{0x8000000000000000-1} = 0; let b{9223372036854775807...0} = 1; let b{-9223372036854775808} = 0; let b{0-9223372036854775807} = 1; }\ndef x : X { let b{0xFFFFFFFFFFFFFFFF} = 1; bits<0xFFFFFFFF> w; int i = b{9223372036854775807-0}; }",
     "class L { list<int> l = [1, 2]; int a = l[0x8000000000000000]; list<int> s = l[9223372036854775807...0]; list<int> t = l[0-9223372036854775807, -9223372036854775808...-1]; }\ndef d : L { bits<64> w = 0x8000000000000000; bit c = w{0x7FFFFFFFFFFFFFFF}; }",
